@@ -59,7 +59,7 @@ F_NULL = "C05-null-non-optional"
 F_LIT = "C05-literal-int-accepts-bool"
 F_DICT = "C05-dict-item-dotted-mapping"
 F_CLASH = "C05-clash-named-argument"
-CLASH_HINTS = ("enum", "dictint", "any", "tupint", "tupvar")   # value converted by _check_value_key, or a dict
+CLASH_HINTS = ("enum", "dictint", "any", "tupint", "tupvar", "float", "ufloat", "listfloat", "yesno")   # value converted by _check_value_key, or a dict
 
 warnings.simplefilter("ignore")
 
@@ -78,25 +78,34 @@ LOOKALIKE = ["1", "true", "null", "1e3", "0123", "[1]", "{a: 1}", " padded ", "a
 LIT_MEMBERS = ["a", "b", "1", "true", "null", " x ", "[1]"]
 NAMES = ["a", "b", "c", "x", "y", "lr", "n_1", "opt", "items", "keys", "Ab", "v2", "w", "name"]
 GROUP_PATHS = ["g", "h", "g.s", "model"]
-HINTS = ["int", "int", "bool", "str", "str", "optint", "listint", "dictint", "lit", "enum", "posint", "liststr", "any", "litint", "tupint", "tupvar"]
+HINTS = ["int", "int", "bool", "str", "str", "optint", "listint", "dictint", "lit", "enum", "posint", "liststr", "any", "litint", "tupint", "tupvar",
+         "float", "ufloat", "listfloat", "yesno"]
+# a float setting is a JSON number token in a given SPELLING {"$f": "1e5"} (json.dumps never writes 1e5 / 2E3 / 1E-3, hand-written documents do);
+# a yes/no setting is a boolean with the WORD used where a channel carries text {"$b": "YES", "neg": false}
+FLOAT_SPELLINGS = ["0.5", "1.5", "-2.25", "100000.0", "1e+16", "1e-05", "3", "-7", "0.0",                # what json.dumps / repr write (and ints)
+                   "1e5", "2E3", "1E-3", "-3e10", "1e0", "12e2", "5E1", "1.5e3", "1.0E+2", "5.7e-8", "0.25E2", "-1.5E-2", "1e-3", "2e+3", "0e0"]
+YES_WORDS = ["true", "yes", "True", "Yes", "TRUE", "YES", "tRuE"]
+NO_WORDS = ["false", "no", "False", "No", "FALSE", "NO", "fAlSe"]
 RAW_HINTS = {"str", "lit", "enum"}           # option / variable text is the value
 INT_POOL = [0, 1, -1, 7, -5, 123, 10, 2**31, -(2**63), 10**20, 99]
 DICT_KEYS = ["a", "b", "b c", "1", "true", "null", "k_2", "A"]
 
 
 def hint_type(h):
-    from typing import Any, Dict, List, Literal, Optional, Tuple
+    from typing import Any, Dict, List, Literal, Optional, Tuple, Union
 
     from jsonargparse.typing import PositiveInt
 
     return {"int": int, "bool": bool, "str": str, "optint": Optional[int], "listint": List[int], "dictint": Dict[str, int],
             "lit": Literal[tuple(LIT_MEMBERS)], "enum": Color, "posint": PositiveInt, "liststr": List[str], "any": Any,
-            "litint": Literal[1, 2], "tupint": Tuple[int, int], "tupvar": Tuple[int, ...]}[h]
+            "litint": Literal[1, 2], "tupint": Tuple[int, int], "tupvar": Tuple[int, ...],
+            "float": float, "ufloat": Union[float, str], "listfloat": List[float]}[h]
 
 
 DEFAULTS = {"int": [0, 7], "bool": [False, True], "str": ["x", "dflt"], "optint": [None, 3], "listint": [[], [9]], "dictint": [{}, {"z": 0}],
             "lit": ["a"], "enum": ["red"], "posint": [1, 4], "liststr": [[], ["d"]], "any": [None, 0], "litint": [1],
-            "tupint": [[0, 0], [3, -4]], "tupvar": [[], [8]]}      # given to add_argument as tuples (normal form)
+            "tupint": [[0, 0], [3, -4]], "tupvar": [[], [8]],      # given to add_argument as tuples (normal form)
+            "float": [0.5, 2.0], "ufloat": [1.5], "listfloat": [[], [0.25]], "yesno": [False, True]}
 
 
 def gen_default(rng, h):
@@ -129,6 +138,12 @@ def gen_value(rng, h):
         return rng.choice([1, 2])
     if h == "any":
         return rng.choice([None, True, False, 0, -3, 12, [1, 2], [], [True, None], {"a": 1}, {}])
+    if h in ("float", "ufloat"):
+        return {"$f": rng.choice(FLOAT_SPELLINGS)}
+    if h == "listfloat":
+        return [{"$f": rng.choice(FLOAT_SPELLINGS)} for _ in range(rng.choice([0, 1, 2, 3]))]
+    if h == "yesno":
+        return {"$b": rng.choice(YES_WORDS + NO_WORDS), "neg": rng.random() < 0.3}
     if h == "tupint":
         return [rng.choice(INT_POOL), rng.choice(INT_POOL)]
     if h == "tupvar":
@@ -148,6 +163,9 @@ WRONG = {
     "lit": ["zzz", "A", "x"],
     "enum": ["purple", "RED", "1"],
     "litint": [3, 0, "abc", [1], False],
+    "float": ["abc", True, [1], "1e", "e5"],
+    "listfloat": [["a"], 5, "abc", [True]],
+    "yesno": ["abc", "maybe", 5, "1", [True]],
     "tupint": [[1], [1, 2, 3], [1, "a"], "abc", 5, [True, 1]],
     "tupvar": [[1, "a"], "abc", 5, {"a": 1}, [None]],
 }
@@ -191,7 +209,10 @@ def gen_spec(rng):
             args.append({"key": key, "hint": h, "nargs": nargs, "default": nargs_default(rng, h, nargs)})
         else:
             h = rng.choice(HINTS)
-            args.append({"key": key, "hint": h, "default": gen_default(rng, h)})
+            a = {"key": key, "hint": h, "default": gen_default(rng, h)}
+            if h == "yesno":
+                a["yn"] = rng.choice([None, "?", 1])      # ActionYesNo nargs: bare flags only / optional word / word required
+            args.append(a)
     prefix = rng.choice(["APP", "APP", "my-app", "C05x", "a.b", True, "X_", "app2"])
     spec = {"prefix": prefix, "prog": "c05prog", "group": "g" if use_group else None, "args": args}
     if with_sub:
@@ -274,6 +295,9 @@ VALUE_POOL = {
     "dictint": [{}, {"a": 1}, {"a": 1, "b c": -2}, {"1": 1, "true": 2, "null": 3}], "lit": LIT_MEMBERS, "enum": ["red", "blue", "green"],
     "litint": [1, 2], "any": [None, True, False, 0, -3, 12, [1, 2], [], [True, None], {"a": 1}, {}],
     "tupint": [[0, 1], [-5, 10**20]], "tupvar": [[], [1], [3, 2, 1]],
+    "float": [{"$f": t} for t in FLOAT_SPELLINGS], "ufloat": [{"$f": t} for t in FLOAT_SPELLINGS],
+    "listfloat": [[], [{"$f": "1e5"}, {"$f": "0.5"}], [{"$f": "2E3"}]],
+    "yesno": [{"$b": w, "neg": n} for w in YES_WORDS + NO_WORDS for n in (False, True)],
 }
 
 
@@ -282,9 +306,12 @@ def exhaustive_single():
     out = []
     for h in sorted(VALUE_POOL):
         for key in ("k", "g.k", "g.s.k"):
-            for dflt in DEFAULTS[h][:1]:
+            for yn in ((None, "?", 1) if h == "yesno" else (None,)):
+                arg = {"key": key, "hint": h, "default": DEFAULTS[h][0]}
+                if h == "yesno":
+                    arg["yn"] = yn
                 spec = {"prefix": "APP", "prog": "c05prog", "group": "g" if key != "k" else None,
-                        "args": [{"key": key, "hint": h, "default": dflt}, {"key": "other", "hint": "int", "default": 0}]}
+                        "args": [arg, {"key": "other", "hint": "int", "default": 0}]}
                 for v in VALUE_POOL[h]:
                     out.append({"spec": spec, "settings": [[key, v]], "kind": "valid"})
                 for v in WRONG.get(h, []):
@@ -315,7 +342,12 @@ def add_args(parser, args, group=None):
         elif a["hint"] in ("tupint", "tupvar"):
             d = tuple(d)
         target = grp if grp is not None and a["key"].split(".")[0] == group else parser
-        if a.get("nargs") is not None:
+        if a["hint"] == "yesno":
+            from jsonargparse import ActionYesNo
+
+            kw = {} if a.get("yn") is None else {"nargs": a["yn"]}
+            target.add_argument("--" + a["key"], action=ActionYesNo, default=d, **kw)
+        elif a.get("nargs") is not None:
             target.add_argument("--" + a["key"], type=hint_type(a["hint"]), nargs=a["nargs"], default=d)
         else:
             target.add_argument("--" + a["key"], type=hint_type(a["hint"]), default=d)
@@ -352,9 +384,54 @@ def arg_of(spec, key):
     return None
 
 
+def is_f(v):
+    return isinstance(v, dict) and "$f" in v
+
+
+def is_b(v):
+    return isinstance(v, dict) and "$b" in v
+
+
+def truth(v):
+    return v["$b"].lower() in ("true", "yes")
+
+
+def opposite_word(w):
+    """the word of the opposite truth value in the same capitalisation style (for the negated option --no_k=word)"""
+    o = {"true": "false", "false": "true", "yes": "no", "no": "yes"}[w.lower()]
+    if w.isupper():
+        return o.upper()
+    if w[0].isupper() and w[1:].islower():
+        return o.capitalize()
+    if w.islower():
+        return o
+    return "".join(c.upper() if i % 2 else c for i, c in enumerate(o))
+
+
+def jdumps(v, words=False):
+    """json.dumps, with float settings written in their spelling and yes/no settings as JSON booleans (words=True: as the word, a string)"""
+    if is_f(v):
+        return v["$f"]
+    if is_b(v):
+        return json.dumps(v["$b"]) if words else ("true" if truth(v) else "false")
+    if isinstance(v, dict):
+        return "{" + ", ".join(json.dumps(k) + ": " + jdumps(x, words) for k, x in v.items()) + "}"
+    if isinstance(v, list):
+        return "[" + ", ".join(jdumps(x, words) for x in v) + "]"
+    return json.dumps(v)
+
+
 def text_of(v):
     """the text of an option / environment variable: strings as they are, everything else as canonical JSON"""
-    return v if isinstance(v, str) else json.dumps(v)
+    if isinstance(v, str):
+        return v
+    if is_b(v):
+        return v["$b"]
+    return jdumps(v)
+
+
+def has_yesno(case):
+    return any(is_b(v) for _, v in case["settings"])
 
 
 def nested_of(settings):
@@ -393,7 +470,7 @@ def env_of(spec, settings, bare=False):
         a = arg_of(spec, key)
         if a is not None and a.get("nargs") is not None and isinstance(v, list):
             # a list-valued option: the JSON list, or (bare) the single item as it is
-            out[env_name(spec["prefix"], spec["prog"], key)] = text_of(v[0]) if bare and len(v) == 1 else json.dumps(v)
+            out[env_name(spec["prefix"], spec["prog"], key)] = text_of(v[0]) if bare and len(v) == 1 else jdumps(v)
         else:
             out[env_name(spec["prefix"], spec["prog"], key)] = text_of(v)
     return out
@@ -411,7 +488,14 @@ def argv_of(case, eq):
         if sub and k.split(".")[0] in sub["choices"]:
             rel, target = k.split(".", 1)[1], below
         a = arg_of(spec, k)
-        if a is not None and a.get("nargs") is not None and isinstance(v, list):
+        if a is not None and a["hint"] == "yesno" and is_b(v):
+            neg = "--no_" + rel
+            if a.get("yn") is None:                 # bare flags only
+                target.append("--" + rel if truth(v) else neg)
+            else:
+                opt, word = (neg, opposite_word(v["$b"])) if v.get("neg") else ("--" + rel, v["$b"])
+                target.extend([opt + "=" + word] if eq else [opt, word])
+        elif a is not None and a.get("nargs") is not None and isinstance(v, list):
             vals = [text_of(e) for e in v]
             # argparse accepts '--k=v' only for exactly one value; several values follow the option as separate arguments
             target.extend(["--%s=%s" % (rel, vals[0])] if eq and len(vals) == 1 else (["--" + rel] + vals))
@@ -472,10 +556,12 @@ def outcome(fn):
 CHANNELS = ["argv_eq", "argv_sp", "cfg_str_nested", "cfg_str_dotted", "cfg_file", "parse_string", "parse_path", "obj_nested", "obj_dotted",
             "env", "mode_json", "mode_jsonnet", "mode_omegaconf",
             # two more spellings of the environment channel: the `env` mapping of parse_env, and a list-valued option given one bare item
-            "parse_env", "env_bare"]
+            "parse_env", "env_bare",
+            # yes/no options: the documented words (true/yes/false/no, any capitalisation) as a string value in a document / an object
+            "doc_word", "obj_word"]
 MODEL_CHANNEL = {"argv_eq": "argv", "argv_sp": "argv", "cfg_str_nested": "cfgNested", "cfg_str_dotted": "cfgDotted", "cfg_file": "cfgNested",
                  "parse_string": "cfgNested", "parse_path": "cfgNested", "obj_nested": "objNested", "obj_dotted": "objDotted", "env": "env",
-                 "mode_json": "cfgNested", "mode_jsonnet": "cfgNested", "mode_omegaconf": "cfgNested", "parse_env": "env", "env_bare": "env"}
+                 "mode_json": "cfgNested", "mode_jsonnet": "cfgNested", "mode_omegaconf": "cfgNested", "parse_env": "env", "env_bare": "env", "doc_word": "cfgNested", "obj_word": "objNested"}
 _MODES = None
 _NEG_NUM = re.compile(r"^-\d+$|^-\d*\.\d+$")
 
@@ -547,6 +633,8 @@ def skip_reason(ch, case):
                     return "argparse tokenisation of a value starting with '-'"
             elif a is not None and a.get("nargs") is not None:
                 return "a list-valued option cannot be given a non-list on the command line"
+    if ch in ("doc_word", "obj_word") and not has_yesno(case):
+        return "only for yes/no options"
     if ch == "env_bare":
         ok = False
         for k, v in settings:
@@ -586,7 +674,7 @@ def run_channels(case, only=None):
     spec, settings = case["spec"], case["settings"]
     nested = nested_of(settings)
     dotted = dotted_of(settings)
-    doc = json.dumps(nested)
+    doc = jdumps(nested)
     out = {}
     path = None
     for ch in CHANNELS:
@@ -610,7 +698,7 @@ def run_channels(case, only=None):
         elif ch == "cfg_str_nested":
             out[ch] = outcome(lambda: build(spec).parse_args(["--cfg=" + doc]))
         elif ch == "cfg_str_dotted":
-            out[ch] = outcome(lambda: build(spec).parse_args(["--cfg", json.dumps(dotted)]))
+            out[ch] = outcome(lambda: build(spec).parse_args(["--cfg", jdumps(dotted)]))
         elif ch == "cfg_file":
             out[ch] = outcome(lambda: build(spec).parse_args(["--cfg", path]))
         elif ch == "parse_string":
@@ -620,7 +708,7 @@ def run_channels(case, only=None):
         elif ch == "obj_nested":
             out[ch] = outcome(lambda: build(spec).parse_object(json.loads(doc)))
         elif ch == "obj_dotted":
-            out[ch] = outcome(lambda: build(spec).parse_object(json.loads(json.dumps(dotted))))
+            out[ch] = outcome(lambda: build(spec).parse_object(json.loads(jdumps(dotted))))
         elif ch == "env":
             with mock.patch.dict(os.environ, env_of(spec, settings)):
                 out[ch] = outcome(lambda: build(spec).parse_args([]))
@@ -629,6 +717,10 @@ def run_channels(case, only=None):
         elif ch == "env_bare":
             with mock.patch.dict(os.environ, env_of(spec, settings, bare=True)):
                 out[ch] = outcome(lambda: build(spec).parse_args([]))
+        elif ch == "doc_word":
+            out[ch] = outcome(lambda: build(spec).parse_string(jdumps(nested, words=True)))
+        elif ch == "obj_word":
+            out[ch] = outcome(lambda: build(spec).parse_object(json.loads(jdumps(nested, words=True))))
         else:
             out[ch] = outcome(lambda: build(spec, ch[5:]).parse_string(doc))
     return out
@@ -827,7 +919,7 @@ def wire_parser(spec):
     if prefix is True:
         prefix = os.path.splitext(spec["prog"])[0]
     return {"prefix": prefix if isinstance(prefix, str) else None,
-            "decls": [{"key": a["key"].split("."), "raw": a["hint"] in RAW_HINTS} for a in spec["args"]]}
+            "decls": [{"key": a["key"].split("."), "raw": a["hint"] in RAW_HINTS} for a in spec["args"] if a["key"] not in foreign_keys(spec)]}
 
 
 def wire_ns_of_canon(c):
@@ -861,21 +953,44 @@ def sort_dict_items(w):
     return w
 
 
+FOREIGN_HINTS = ("float", "ufloat", "listfloat", "yesno")
+
+
+def foreign_keys(spec):
+    """arguments the Channels model does not have (list-valued options, floats, yes/no actions): when no setting touches them
+    they are left out of the model parser and their keys are removed from the real namespaces before the comparison"""
+    return {a["key"] for a in spec["args"] if a.get("nargs") is not None or a["hint"] in FOREIGN_HINTS or not in_grammar(a["default"])}
+
+
 def outside_model(case):
-    """parser features the Channels model does not have: list-valued options (nargs) and sub-commands"""
-    return bool(case["spec"].get("sub")) or any(a.get("nargs") is not None for a in case["spec"]["args"])
+    """parser features the Channels model does not have: sub-commands, or a setting for a foreign argument"""
+    fk = foreign_keys(case["spec"])
+    return bool(case["spec"].get("sub")) or any(k in fk for k, _ in case["settings"])
+
+
+def drop_keys(c, keys, pre=""):
+    """canonical namespace without the leaves named in `keys`; namespaces that become empty are removed too"""
+    if c[0] != "N":
+        return c
+    out = []
+    for k, v in c[1]:
+        full = pre + k
+        if full in keys:
+            continue
+        if v[0] == "N":
+            v2 = drop_keys(v, keys, full + ".")
+            if not v2[1] and v[1]:
+                continue
+            v = v2
+        out.append([k, v])
+    return ["N", out]
 
 
 def model_ok(case):
     """is the case inside the model's grammar (values; Enum by name), and valid or unknown-key?"""
     if case["kind"] not in ("valid", "unknown") or clash_args(case) or outside_model(case):
         return False
-    if not all(in_grammar(v) for _, v in case["settings"]):
-        return False
-    for a in case["spec"]["args"]:
-        if not in_grammar(a["default"]):
-            return False
-    return True
+    return all(in_grammar(v) for _, v in case["settings"])
 
 
 def defaults_canon(spec):
@@ -1115,14 +1230,14 @@ def correspond_channels(ctx: Ctx, cases_outs):
         if not model_ok(case):
             why = "kind " + case["kind"] if case["kind"] not in ("valid", "unknown") else (
                 "clash-named argument, open finding" if clash_args(case) else (
-                    "nargs / sub-commands: outside the model" if outside_model(case) else "value outside the grammar"))
+                    "sub-commands / setting for a nargs, float or yes-no argument: outside the model" if outside_model(case) else "value outside the grammar"))
             ctx.hist("model_routing", "oracle only (%s)" % why)
             continue
         ctx.hist("model_routing", "model and oracle")
         P = wire_parser(case["spec"])
         S = [[k.split("."), wire_val(v)] for k, v in case["settings"]]
         try:
-            base = wire_ns_of_canon(defaults_canon(case["spec"]))
+            base = wire_ns_of_canon(drop_keys(defaults_canon(case["spec"]), foreign_keys(case["spec"])))
         except ValueError:
             continue
         for mc in ("argv", "cfgNested", "cfgDotted", "objNested", "objDotted", "env"):
@@ -1173,7 +1288,7 @@ def correspond_channels(ctx: Ctx, cases_outs):
                 ctx.tie_break("correspondence apply(render %s): model accepts, %s rejects (%s)" % (mc, ch, o["rej"]),
                               json.dumps({"case": case, "msg": o.get("msg")}, ensure_ascii=True)[:1500])
                 return
-            real_ns = wire_ns_of_canon(o["ok"])
+            real_ns = wire_ns_of_canon(drop_keys(o["ok"], foreign_keys(case["spec"])))
             if json.dumps(sort_dict_items(real_ns), ensure_ascii=True) != json.dumps(sort_dict_items(mr["some"]), ensure_ascii=True):
                 ctx.tie_break("correspondence apply(render %s) vs the namespace returned through %s disagrees" % (mc, ch),
                               json.dumps({"case": case, "real": real_ns, "model": mr["some"]}, ensure_ascii=True)[:1800])
